@@ -95,6 +95,17 @@ def prepare(cases, root):
             meas = '    /begin MEASUREMENT m1 "" UBYTE NO_COMPU_METHOD 1 1 0 255 /begin IF_DATA X 1 /end IF_DATA /end MEASUREMENT\n'
             text = HEAD + "    /begin A2ML\n" + directive(f) + "\n    /end A2ML\n" + meas + TAIL
             flat = HEAD + "    /begin A2ML\n" + AML + "\n    /end A2ML\n" + meas + TAIL
+        elif c["fam"] == "ifdata":
+            f = {"place": c["place"], "name": "ifdata.inc", "sep": c["sep"], "quoted": c["quoted"]}
+            cdir = os.path.join(src, *relpath(f)[:-1])
+            os.makedirs(cdir, exist_ok=True)
+            content = "X 17" if c["described"] else "VENDOR 1 0x2 /begin B 3 /end B"
+            with open(os.path.join(cdir, "ifdata.inc"), "w") as fh:
+                fh.write(content + "\n")
+            aml = ("    /begin A2ML\n" + AML + "    /end A2ML\n") if c["described"] else ""
+            meas = '    /begin MEASUREMENT m1 "" UBYTE NO_COMPU_METHOD 1 1 0 255 /begin IF_DATA {x} /end IF_DATA /end MEASUREMENT\n'
+            text = HEAD + aml + meas.format(x=directive(f)) + TAIL
+            flat = HEAD + aml + meas.format(x=content) + TAIL
         else:
             text, flat = fault_files(c, src)
         with open(os.path.join(src, "main.a2l"), "w") as fh:
@@ -211,7 +222,7 @@ def run(tier, selftest):
     fams = {}
     for c in cases:
         fams[c["fam"]] = fams.get(c["fam"], 0) + 1
-    if set(fams) != {"shape", "fault", "a2ml"}:
+    if set(fams) != {"shape", "fault", "a2ml", "ifdata"}:
         vlib.tool_error(f"vacuity: families {fams}")
     root = os.path.join(vlib.scratch(), "include_trees")
     os.makedirs(root)
